@@ -26,8 +26,6 @@ import (
 	"verif/harness/hlib"
 )
 
-const findingKey = "closeconn-slot-freed-before-close"
-
 type desc struct {
 	Kind   string   `json:"kind"` // trace | stress
 	Max    int      `json:"max"`
@@ -229,7 +227,11 @@ func (e *env) lentCount() int {
 func (e *env) quiescent() bool {
 	// books first: once they balance, every tryDeliver of the running goroutines has happened ...
 	s := e.hc.VerifC18Snapshot()
-	if s.ConnsCount != len(s.Idle)+e.lentCount()+e.npending()+e.manualUndelivered() {
+	// (a conn inside a blocking Close still holds its slot: CloseConn closes first, then decConnsCount)
+	// (were the slot freed before Close — the repaired defect — the books balance without them: accepted here so that
+	// the trace goes on and records the surplus connection; prop_ok rejects ConnsCount != open + dialling)
+	base := len(s.Idle) + e.lentCount() + e.npending() + e.manualUndelivered()
+	if s.ConnsCount != base+len(e.blocked) && s.ConnsCount != base {
 		return false
 	}
 	// ... so a requester that was woken is visible as "not waiting, not returned"
@@ -809,9 +811,6 @@ func runTrace(d desc) hlib.Case {
 	c := hlib.Case{Coq: hlib.App("CTrace", cf, hlib.List(items)), Kind: "trace", Size: len(e.ops)}
 	if d.Block {
 		c.Kind = "trace-blockingclose"
-		if e.flagged {
-			c.Key = findingKey
-		}
 	}
 	fs := hlib.SortedKeys(e.feats)
 	c.Sig = fmt.Sprintf("m%d w%v f%v %s", d.Max, d.Wait, d.Fifo, strings.Join(fs, ","))
@@ -960,10 +959,6 @@ func runStress(d desc) hlib.Case {
 	c := hlib.Case{Kind: "stress", Size: d.G * d.Iters}
 	c.Coq = hlib.App("CStress", hlib.Z(int64(d.Max)), hlib.Bool(d.Wait), hlib.Z(int64(strict)), hlib.Z(int64(lenient)), hlib.Z(st.dbl.Load()),
 		hlib.Z(int64(hc.ConnsCount())), hlib.Z(int64(hc.IdleConnsCount())), hlib.Z(int64(open)), hlib.Z(st.bad.Load()), hlib.Z(st.late.Load()))
-	m := d.Max
-	if strict > m && lenient <= m {
-		c.Key = findingKey
-	}
 	c.Sig = fmt.Sprintf("stress m%d w%v f%v p%d", d.Max, d.Wait, d.Fifo, d.FailP)
 	return c
 }
@@ -975,7 +970,8 @@ func corpus() []desc {
 	add := func(max int, wait, fifo bool, script ...string) {
 		c = append(c, desc{Kind: "trace", Max: max, Wait: wait, Fifo: fifo, Script: script})
 	}
-	// the strict open-connection bound: slot released before the old conn is closed
+	// the strict open-connection bound: witnesses of the repaired defect "slot released before the old conn is closed"
+	// (with the defect the second dial happens while conn 0 is still open)
 	c = append(c, desc{Kind: "trace", Max: 1, Block: true, Script: []string{"acq", "ok:0", "cbegin:0", "acq", "ok:0", "cfin:0"}})
 	c = append(c, desc{Kind: "trace", Max: 2, Wait: true, Block: true, Script: []string{"acq", "acq", "ok:0", "ok:0", "acq", "cbegin:1", "ok:0", "cfin:1"}})
 	for _, fifo := range []bool{false, true} {
